@@ -56,7 +56,7 @@ def spec_detrend_exact(vals):
     m = len(vals)
     if m == 1:
         return [Fraction(0)]
-    y = [Fraction(int(v)) for v in vals]
+    y = [Fraction(v.item() if hasattr(v, "item") else v) for v in vals]      # exact for whole numbers and for binary fractions alike
     sx = Fraction(m * (m - 1), 2)
     sxx = Fraction(m * (m - 1) * (2 * m - 1), 6)
     sy = sum(y)
@@ -83,6 +83,18 @@ def agrees(out, exp, in_dtype=None):
     if in_dtype is not None and out.dtype == np.dtype(in_dtype):
         return bool(np.array_equal(out, exp.astype(in_dtype)))
     return False
+
+
+# the APIs that STORE a group mean into an array of the input's dtype (the compiled mean kernels: `result = np.empty(.., dtype=array.dtype)`);
+# only for these, and only for the mean, may an integer input give "the definition converted to that dtype at the very end".  Everything
+# else (np.mean / np.median paths: downsample_2d, FilterbankBlock.downsample, every median) has to return the floating mean / median.
+INT_STORE_APIS = frozenset({"downsample_1d", "downsample_2d_flat", "kernels.downsample_1d_mean", "kernels.downsample_1d_mean_parallel",
+                            "kernels.downsample_2d_mean_flat", "kernels.downsample_2d_mean_parallel", "TimeSeries.downsample"})
+
+
+def store_dtype(api, method, dt):
+    """the `in_dtype` argument of `agrees` / `_scale_diff` for this call: the input dtype where the API stores into it, else None"""
+    return dt if (api in INT_STORE_APIS and method == "mean") else None
 
 
 def L(a):
@@ -180,6 +192,8 @@ def run(R: vlib.Run):
             a = nprng.integers(200, 256, n)
         elif kind == "ramp":
             a = (np.arange(n) * rng.randrange(1, 5) + rng.randrange(0, 20)) % 256
+        elif kind == "dyadic":        # signed binary fractions k / 8 (floating dtypes only, never drawn by default): sums stay exact
+            a = nprng.integers(-2048, 2048, n) / 8.0
         else:
             a = nprng.integers(0, 256, n)
         return a.reshape(shape).astype(dt)
@@ -249,7 +263,7 @@ def run(R: vlib.Run):
                     except Exception as e:  # noqa: BLE001
                         R.fail(f"downsample_1d-{method}-{kindk}", f"downsample_1d raised {type(e).__name__}: {e}", case)
                         continue
-                    if not agrees(out, exp, dt):
+                    if not agrees(out, exp, store_dtype("downsample_1d", method, dt)):
                         R.fail(f"downsample_1d-{method}-{kindk}", "entry i is not the mean/median of x[i f : (i+1) f] (length floor(n/f))", dict(case, got=L(out)))
                     if n <= 12 and (dname != "float32"):
                         if method == "mean":
@@ -284,7 +298,7 @@ def run(R: vlib.Run):
                         R.case(("ds1r", n, f, dname, method, kind), regime=f"downsample_1d/{method}/reciprocal-sensitive")
                         exp = spec_ds1(x, f, method)
                         out = stats.downsample_1d(x, f, method)
-                        if not agrees(out, exp, dt):
+                        if not agrees(out, exp, store_dtype("downsample_1d", method, dt)):
                             R.fail(f"downsample_1d-{method}-{kindk}", "entry i is not the mean/median of x[i f : (i+1) f] (group size whose reciprocal is inexact)",
                                    {"x": L(x), "dtype": dname, "factor": f, "method": method, "expected": L(exp), "got": L(out)})
                         if method == "mean" and n == f and dname != "float32":
@@ -308,7 +322,7 @@ def run(R: vlib.Run):
                 if not agrees(outf, exp.ravel(), dt):
                     R.fail(f"downsample_2d_flat-mean-{kindk}", "flat entry k is not the mean of its group (group size whose reciprocal is inexact)", dict(case, got=L(outf)))
                 out2 = stats.downsample_2d(x, (f1, f2), "mean")
-                if not agrees(out2, exp, dt):
+                if not agrees(out2, exp, store_dtype("downsample_2d", "mean", dt)):
                     R.fail(f"downsample_2d-mean-{kindk}", "entry (i, j) is not the mean of its group (group size whose reciprocal is inexact)", dict(case, got=L(out2)))
                 outp = kernels.downsample_2d_mean_parallel(x.ravel(), f1, f2, d1, d2)
                 if not agrees(outp, exp.ravel(), dt):
@@ -332,7 +346,7 @@ def run(R: vlib.Run):
                                    sample=dict(case, fn="downsample_2d") if (d1, d2, f1, f2, dname, method) == (3, 5, 2, 2, "uint8", "mean") else None)
                             try:
                                 out = stats.downsample_2d(x, (f1, f2), method)
-                                if not agrees(out, exp, dt):
+                                if not agrees(out, exp, store_dtype("downsample_2d", method, dt)):
                                     R.fail(f"downsample_2d-{method}-{kindk}", "entry (i, j) is not the aggregate of rows i f1.. and columns j f2..", dict(case, got=L(out), got_shape=list(out.shape)))
                             except Exception as e:  # noqa: BLE001
                                 R.fail(f"downsample_2d-{method}-{kindk}", f"downsample_2d raised {type(e).__name__}: {e}", case)
@@ -340,7 +354,7 @@ def run(R: vlib.Run):
                             R.case(("ds2f", d1, d2, f1, f2, dname, method), nontrivial=d1 * d2 >= 2, regime=f"downsample_2d_flat/{method}")
                             try:
                                 outf = stats.downsample_2d_flat(x.ravel(), f1, f2, d1, d2, method)
-                                if not agrees(outf, exp.ravel(), dt):
+                                if not agrees(outf, exp.ravel(), store_dtype("downsample_2d_flat", method, dt)):
                                     R.fail(f"downsample_2d_flat-{method}-{kindk}", "flat entry k is not the aggregate of group (k // nd2, k % nd2)", dict(case, got=L(outf)))
                             except Exception as e:  # noqa: BLE001
                                 R.fail(f"downsample_2d_flat-{method}-{kindk}", f"downsample_2d_flat raised {type(e).__name__}: {e}", case)
@@ -372,9 +386,9 @@ def run(R: vlib.Run):
             kindk = "int" if dt is np.uint8 else "float"
             R.case(("ds2L", d1, d2, f1, f2, dname, method), regime=f"downsample_2d/{method}/large")
             case = {"seed": R.seed, "shape": [d1, d2], "dtype": dname, "factors": [f1, f2], "method": method, "x": L(x)}
-            if not agrees(stats.downsample_2d(x, (f1, f2), method), exp, dt):
+            if not agrees(stats.downsample_2d(x, (f1, f2), method), exp, store_dtype("downsample_2d", method, dt)):
                 R.fail(f"downsample_2d-{method}-{kindk}", "entry (i, j) is not the aggregate of its group (large shape)", case)
-            if not agrees(stats.downsample_2d_flat(x.ravel(), f1, f2, d1, d2, method), exp.ravel(), dt):
+            if not agrees(stats.downsample_2d_flat(x.ravel(), f1, f2, d1, d2, method), exp.ravel(), store_dtype("downsample_2d_flat", method, dt)):
                 R.fail(f"downsample_2d_flat-{method}-{kindk}", "flat entry is not the aggregate of its group (large shape)", case)
 
     # ---- 4. detrend --------------------------------------------------------------------------------
@@ -481,13 +495,279 @@ def run(R: vlib.Run):
                     if nchans <= 4 and nsamps <= 7 and method == "mean" and (ff, tf) != (1, 1):
                         corr_ds.append(("blk", False, False, L(x.astype(np.int64)), [nchans, nsamps, ff, tf],
                                         [int(round(float(v) * ff * tf)) for v in np.asarray(out).ravel()]))
+    # ---- 5b. regimes of the quantifier that the lattice sweeps above do not reach (same definitions, own failure keys) ------------
+    # memory layouts (a block read from a file is a TRANSPOSED view, its rows are strided, a memmap is read-only), signed binary
+    # fractions in the floating dtypes, windows many times longer than the series, the seconds -> bins conversion of deredden away
+    # from whole bins and its `fast` flag below the width where running_filter_fast starts to decimate, one pedestal block whose
+    # group sums do not fit a float32 accumulator.
+    def hdr_of(nchans, nsamps, data_type, ts_=tsamp):
+        return Header(filename="c14.fil" if data_type == "filterbank" else "c14.tim", data_type=data_type, nchans=nchans, foff=-1.0,
+                      fch1=1500.0, nbits=32, tsamp=ts_, tstart=60000.0, nsamples=nsamps)
+
+    def detrend_agrees(out, vals):
+        out = np.asarray(out)
+        exp = np.array([float(v) for v in spec_detrend_exact(vals)])
+        scale_ = max(1.0, max(abs(float(v)) for v in vals))
+        return out.dtype.kind == "f" and out.shape == exp.shape and bool(
+            np.allclose(out.astype(np.float64), exp, rtol=0, atol=(2e-5 if out.dtype == np.float32 else 1e-9) * scale_)), exp
+
+    def expect(key, ckey, regime, what, case, call, exp, in_dtype=None, rtol=None):
+        """one implementation call of a new regime: an exception, a wrong shape / result kind or a wrong value is a finding"""
+        R.case(ckey, regime=regime)
+        try:
+            out = np.asarray(call())
+        except Exception as e:  # noqa: BLE001
+            R.fail(key, f"raised {type(e).__name__}: {str(e)[:200]} -- {what}", case)
+            return None
+        if rtol is None:
+            okv = agrees(out, exp, in_dtype)
+        else:
+            e64 = np.asarray(exp, dtype=np.float64)
+            okv = out.dtype.kind == "f" and out.shape == e64.shape and bool(np.allclose(out.astype(np.float64), e64, rtol=rtol, atol=0))
+        if not okv:
+            R.fail(key, what, dict(case, got=L(out)[:400], got_dtype=str(out.dtype), got_shape=list(out.shape), expected=L(exp)[:400]))
+        return out
+
+    # (i) memory layouts: the definition is a statement about the LOGICAL content of the array, whatever its strides / flags
+    def variants_1d(n, dt):
+        yield "strided", rand_int_array((2 * n + 1,), dt, kind="uniform")[1::2]            # e.g. one channel of a block as read from a file
+        yield "reversed", rand_int_array((n,), dt, kind="uniform")[::-1]
+        ro = rand_int_array((n,), dt, kind="uniform")
+        ro.setflags(write=False)                                                            # np.frombuffer / read-only memmap
+        yield "readonly", ro
+
+    def variants_2d(d1, d2, dt):
+        yield "fortran", np.asfortranarray(rand_int_array((d1, d2), dt, kind="uniform"))
+        yield "transposed", rand_int_array((d2, d1), dt, kind="uniform").T                  # what FilReader.read_block hands to FilterbankBlock
+        yield "strided", rand_int_array((2 * d1, 3 * d2), dt, kind="uniform")[::2, 1::3]
+        yield "reversed", rand_int_array((d1, d2), dt, kind="uniform")[::-1, ::-1]
+        ro = rand_int_array((d1, d2), dt, kind="uniform")
+        ro.setflags(write=False)
+        yield "readonly", ro
+
+    for n in (1, 2, 7, 12, 33):
+        for dname, dt in DTYPES:
+            for lay, v in variants_1d(n, dt):
+                c = np.ascontiguousarray(v)
+                base = {"layout": lay, "x": L(c), "dtype": dname, "strides": list(v.strides), "writeable": bool(v.flags.writeable)}
+                for f in sorted({1, 2, 3, max(1, n // 2), n} & set(range(1, n + 1))):
+                    for method in METHODS:
+                        expect("layout-downsample_1d", ("lay", "ds1", lay, n, f, dname, method), f"layout/{lay}",
+                               "downsample_1d of a non-contiguous / read-only series is not the group aggregate of its elements",
+                               dict(base, factor=f, method=method), lambda: stats.downsample_1d(v, f, method), spec_ds1(c, f, method),
+                               store_dtype("downsample_1d", method, dt))
+                    for kname in ("downsample_1d_mean", "downsample_1d_mean_parallel"):
+                        expect(f"layout-kernel-{kname}", ("lay", kname, lay, n, f, dname), f"layout/{lay}",
+                               "mean kernel on a non-contiguous / read-only series differs from the group mean",
+                               dict(base, factor=f), lambda: getattr(kernels, kname)(v, f), spec_ds1(c, f, "mean"), dt)
+                for w in sorted({1, 2, 3, n + 1, 2 * n + 1}):
+                    for method in METHODS:
+                        out = expect("layout-running_filter", ("lay", "rf", lay, n, w, dname, method), f"layout/{lay}",
+                                     "running_filter of a non-contiguous / read-only series is not the aggregate of the centred, reflected window",
+                                     dict(base, window=w, method=method), lambda: stats.running_filter(v, w, method), spec_running(c, w, method))
+                        if out is not None and out.shape != (n,):
+                            R.fail("layout-running_filter", "output length differs from the input length", dict(base, window=w, method=method, got_shape=list(out.shape)))
+                R.case(("lay", "det", lay, n, dname), regime=f"layout/{lay}")
+                try:
+                    okv, exp = detrend_agrees(kernels.detrend_1d(v), L(c))
+                    if not okv:
+                        R.fail("layout-detrend_1d", "detrend_1d of a non-contiguous / read-only series is not its least-squares residual", dict(base, expected=L(exp)))
+                except Exception as e:  # noqa: BLE001
+                    R.fail("layout-detrend_1d", f"detrend_1d raised {type(e).__name__}: {str(e)[:200]}", base)
+                if dt is np.float32:
+                    ts = TimeSeries(v, hdr_of(1, n, "time series"))
+                    base_ts = dict(base, data_is_the_callers_memory=bool(np.shares_memory(ts.data, v)))
+                    for f in sorted({2, 3, n} & set(range(1, n + 1))):
+                        for method in METHODS:
+                            expect("layout-TimeSeries.downsample", ("lay", "tsds", lay, n, f, method), f"layout/{lay}",
+                                   "TimeSeries.downsample of a series held as a view is not the group aggregate", dict(base_ts, factor=f, method=method),
+                                   lambda: guarded_method("TimeSeries.downsample", ts, f"downsample({f}, {method!r})", lambda: ts.downsample(f, method).data),
+                                   spec_ds1(c, f, method))
+                    for w in (2, 3, n + 1):
+                        for method in METHODS:
+                            expect("layout-TimeSeries.deredden", ("lay", "dered", lay, n, w, method), f"layout/{lay}",
+                                   "deredden of a series held as a view is not the input minus its running filter", dict(base_ts, window_bins=w, method=method),
+                                   lambda: guarded_method("TimeSeries.deredden", ts, f"deredden({method!r}, window={w} bins)", lambda: ts.deredden(method, window=w * tsamp).data),
+                                   c.astype(np.float64) - spec_running(c, w, method))
+    for (d1, d2) in [(1, 1), (3, 7), (6, 4), (2, 13)]:
+        pairs = [(f1, f2) for f1 in range(1, d1 + 1) for f2 in range(1, d2 + 1)]
+        if len(pairs) > 12:
+            pairs = sorted(set([(1, 1), (d1, d2), (1, d2), (d1, 1), (2, 3), (2, 2)] + rng.sample(pairs, 6)))
+        for dname, dt in DTYPES:
+            for lay, v in variants_2d(d1, d2, dt):
+                c = np.ascontiguousarray(v)
+                base = {"layout": lay, "x": L(c), "shape": [d1, d2], "dtype": dname, "strides": list(v.strides), "writeable": bool(v.flags.writeable)}
+                blk = FilterbankBlock(v, hdr_of(d1, d2, "filterbank")) if dt is np.float32 else None
+                for (f1, f2) in pairs:
+                    for method in METHODS:
+                        exp = spec_ds2(c, f1, f2, method)
+                        expect("layout-downsample_2d", ("lay", "ds2", lay, d1, d2, f1, f2, dname, method), f"layout/{lay}",
+                               "downsample_2d of a Fortran-ordered / transposed / strided / read-only block: entry (i, j) is not the aggregate of rows i f1.. and columns j f2..",
+                               dict(base, factors=[f1, f2], method=method), lambda: stats.downsample_2d(v, (f1, f2), method), exp, store_dtype("downsample_2d", method, dt))
+                        if blk is not None:
+                            expect("layout-FilterbankBlock.downsample", ("lay", "blk", lay, d1, d2, f1, f2, method), f"layout/{lay}",
+                                   "FilterbankBlock.downsample of a block held as a transposed / strided view (as read from a file) is not the group aggregate",
+                                   dict(base, ffactor=f1, tfactor=f2, method=method, data_is_the_callers_memory=bool(np.shares_memory(blk.data, v))),
+                                   lambda: guarded_method("FilterbankBlock.downsample", blk, f"downsample({f1}, {f2}, {method!r})", lambda: blk.downsample(f1, f2, method).data), exp)
+        # the flattened block handed over as a strided / reversed / read-only 1-D array
+        for dname, dt in DTYPES:
+            for lay, v in variants_1d(d1 * d2, dt):
+                c = np.ascontiguousarray(v)
+                base = {"layout": lay, "x": L(c), "shape": [d1, d2], "dtype": dname, "strides": list(v.strides), "writeable": bool(v.flags.writeable)}
+                for (f1, f2) in pairs:
+                    for method in METHODS:
+                        expect("layout-downsample_2d_flat", ("lay", "ds2f", lay, d1, d2, f1, f2, dname, method), f"layout/{lay}",
+                               "downsample_2d_flat of a non-contiguous / read-only flat block: entry k is not the aggregate of group (k // nd2, k % nd2)",
+                               dict(base, factors=[f1, f2], method=method), lambda: stats.downsample_2d_flat(v, f1, f2, d1, d2, method),
+                               spec_ds2(c.reshape(d1, d2), f1, f2, method).ravel(), store_dtype("downsample_2d_flat", method, dt))
+                    expect("layout-kernel-downsample_2d_mean_parallel", ("lay", "k2p", lay, d1, d2, f1, f2, dname), f"layout/{lay}",
+                           "parallel kernel on a non-contiguous / read-only flat block differs from the group mean", dict(base, factors=[f1, f2]),
+                           lambda: kernels.downsample_2d_mean_parallel(v, f1, f2, d1, d2), spec_ds2(c.reshape(d1, d2), f1, f2, "mean").ravel(), dt)
+
+    # (ii) signed binary fractions (k / 8, -256 <= value < 256) in the floating dtypes: every sum is still exact, but any step that
+    # rounds, truncates or takes the magnitude of a SAMPLE now shows
+    FLOATS = [d for d in DTYPES if d[0] != "uint8"]
+    for n in list(range(1, 17)) + [rng.randrange(17, NMAX + 1) for _ in range(4)]:
+        for dname, dt in FLOATS:
+            x = rand_int_array((n,), dt, kind="dyadic")
+            base = {"x": L(x), "dtype": dname, "values": "signed multiples of 1/8"}
+            for w in sorted({1, 2, 3, 4, n, n + 1, 2 * n, 2 * n + 1, 3 * n + 1}):
+                for method in METHODS:
+                    out = expect(f"fractional-running_filter-{method}", ("frac", "rf", n, w, dname, method), "fractional/running_filter",
+                                 "running filter of signed fractional samples differs from the aggregate of the centred, symmetrically reflected window",
+                                 dict(base, window=w, method=method), lambda: stats.running_filter(x, w, method), spec_running(x, w, method))
+                    if out is not None and out.shape != (n,):
+                        R.fail(f"fractional-running_filter-{method}", "output length differs from the input length", dict(base, window=w, method=method, got_shape=list(out.shape)))
+            for f in range(1, n + 1):
+                for method in METHODS:
+                    expect(f"fractional-downsample_1d-{method}", ("frac", "ds1", n, f, dname, method), "fractional/downsample_1d",
+                           "entry i is not the mean/median of x[i f : (i+1) f] (signed fractional samples)", dict(base, factor=f, method=method),
+                           lambda: stats.downsample_1d(x, f, method), spec_ds1(x, f, method))
+                if f in (1, 2, 3, n):
+                    for kname in ("downsample_1d_mean", "downsample_1d_mean_parallel"):
+                        expect(f"fractional-kernel-{kname}", ("frac", kname, n, f, dname), "fractional/kernel", "kernel differs from the group mean (signed fractional samples)",
+                               dict(base, factor=f), lambda: getattr(kernels, kname)(x, f), spec_ds1(x, f, "mean"))
+            R.case(("frac", "det", n, dname), nontrivial=n >= 2, regime="fractional/detrend")
+            try:
+                okv, exp = detrend_agrees(kernels.detrend_1d(x), L(x))
+                if not okv:
+                    R.fail("fractional-detrend_1d", "detrend_1d of signed fractional samples is not the least-squares residual", dict(base, expected=L(exp)))
+            except Exception as e:  # noqa: BLE001
+                R.fail("fractional-detrend_1d", f"detrend_1d raised {type(e).__name__}: {str(e)[:200]}", base)
+            if dt is np.float32 and n <= 12:
+                ts = ts_of(x)
+                for w in sorted({1, 2, 5, n + 1, 2 * n + 1}):
+                    for method in METHODS:
+                        expect(f"fractional-deredden-{method}", ("frac", "dered", n, w, method), "fractional/deredden",
+                               "de-reddened series is not the input minus its running filter (signed fractional samples)", dict(base, window_bins=w, method=method),
+                               lambda: guarded_method("TimeSeries.deredden", ts, f"deredden({method!r}, window={w} bins)", lambda: ts.deredden(method, window=w * tsamp).data),
+                               x.astype(np.float64) - spec_running(x, w, method))
+                for f in range(2, n + 1):
+                    for method in METHODS:
+                        expect(f"fractional-timeseries-downsample-{method}", ("frac", "tsds", n, f, method), "fractional/TimeSeries.downsample",
+                               "TimeSeries.downsample is not the group aggregate (signed fractional samples)", dict(base, factor=f, method=method),
+                               lambda: guarded_method("TimeSeries.downsample", ts, f"downsample({f}, {method!r})", lambda: ts.downsample(f, method).data), spec_ds1(x, f, method))
+    for (d1, d2) in [(1, 1), (2, 3), (3, 5), (5, 4), (4, 7)]:
+        for dname, dt in FLOATS:
+            x = rand_int_array((d1, d2), dt, kind="dyadic")
+            base = {"x": L(x), "shape": [d1, d2], "dtype": dname, "values": "signed multiples of 1/8"}
+            blk = FilterbankBlock(x, hdr_of(d1, d2, "filterbank")) if dt is np.float32 else None
+            for f1 in range(1, d1 + 1):
+                for f2 in range(1, d2 + 1):
+                    for method in METHODS:
+                        exp = spec_ds2(x, f1, f2, method)
+                        case = dict(base, factors=[f1, f2], method=method)
+                        expect(f"fractional-downsample_2d-{method}", ("frac", "ds2", d1, d2, f1, f2, dname, method), "fractional/downsample_2d",
+                               "entry (i, j) is not the aggregate of its group (signed fractional samples)", case, lambda: stats.downsample_2d(x, (f1, f2), method), exp)
+                        expect(f"fractional-downsample_2d_flat-{method}", ("frac", "ds2f", d1, d2, f1, f2, dname, method), "fractional/downsample_2d_flat",
+                               "flat entry k is not the aggregate of its group (signed fractional samples)", case,
+                               lambda: stats.downsample_2d_flat(x.ravel(), f1, f2, d1, d2, method), exp.ravel())
+                        if blk is not None:
+                            expect(f"fractional-block-downsample-{method}", ("frac", "blk", d1, d2, f1, f2, method), "fractional/FilterbankBlock.downsample",
+                                   "FilterbankBlock.downsample is not the group aggregate (signed fractional samples)", case,
+                                   lambda: guarded_method("FilterbankBlock.downsample", blk, f"downsample({f1}, {f2}, {method!r})", lambda: blk.downsample(f1, f2, method).data), exp)
+                    expect("fractional-kernel-downsample_2d_mean_parallel", ("frac", "k2p", d1, d2, f1, f2, dname), "fractional/kernel",
+                           "parallel kernel differs from the group mean (signed fractional samples)", dict(base, factors=[f1, f2]),
+                           lambda: kernels.downsample_2d_mean_parallel(x.ravel(), f1, f2, d1, d2), spec_ds2(x, f1, f2, "mean").ravel())
+
+    # (iii) windows many times longer than the series (the default deredden window of 0.5 s is 1526 bins at this tsamp: every series
+    # shorter than ~500 samples is filtered with w > 3 n + 1); np.pad then reflects the series over and over
+    for n in range(1, 9):
+        for dname, dt in DTYPES:
+            x = rand_int_array((n,), dt, kind="dyadic" if (dt is not np.uint8 and n % 2) else None)
+            ts = ts_of(x) if dt is np.float32 else None
+            for w in sorted({5 * n, 7 * n + 2, 64 * n + 1, 1526}):
+                pl, pr = w // 2, (w // 2 if w % 2 else w // 2 - 1)
+                padded_model = x[sym_idx(n, np.arange(-pl, n + pr))]
+                try:
+                    if not np.array_equal(np.pad(x, (pl, pr), "symmetric"), padded_model):
+                        assumption_bad += 1
+                        R.disagree("assumption: np.pad(mode='symmetric') differs from the index map sym (pad many times the length)", {"x": L(x), "pad": [pl, pr]})
+                except Exception as e:  # noqa: BLE001
+                    R.disagree(f"assumption: np.pad raised {type(e).__name__}", {"x": L(x), "pad": [pl, pr]})
+                for method in METHODS:
+                    case = {"x": L(x), "dtype": dname, "window": w, "method": method}
+                    out = expect(f"wide-window-running_filter-{method}", ("wide", "rf", n, w, dname, method), "running_filter/very-wide",
+                                 "running filter with a window many times longer than the series differs from the aggregate of the centred, repeatedly reflected window",
+                                 case, lambda: stats.running_filter(x, w, method), spec_running(x, w, method))
+                    if out is not None and out.shape != (n,):
+                        R.fail(f"wide-window-running_filter-{method}", "output length differs from the input length", dict(case, got_shape=list(out.shape)))
+                    if ts is not None:
+                        expect(f"wide-window-deredden-{method}", ("wide", "dered", n, w, method), "deredden/very-wide",
+                               "de-reddened series is not the input minus its running filter (window many times longer than the series)", dict(case, window_bins=w),
+                               lambda: guarded_method("TimeSeries.deredden", ts, f"deredden({method!r}, window={w} bins)", lambda: ts.deredden(method, window=w * tsamp).data),
+                               x.astype(np.float64) - spec_running(x, w, method))
+
+    # (iv) deredden: a window given in seconds within a quarter of a bin of w bins is a window of w bins (for three sampling times);
+    # with fast=True and fewer than 2 * min_points = 202 bins running_filter_fast does not decimate, so the result is the same series
+    for ts_ in (tsamp, 6.4e-5, 1e-3):
+        for n in (6, 23):
+            x = rand_int_array((n,), np.float32, kind=rng.choice(["uniform", "dyadic"]))
+            ts = TimeSeries(x, hdr_of(1, n, "time series", ts_))
+            for w in (1, 2, 3, 7, 10, 100, 101, 201):
+                for method in METHODS:
+                    exp = x.astype(np.float64) - spec_running(x, w, method)
+                    for delta in (-0.25, 0.0, 0.25):
+                        window = (w + delta) * ts_
+                        case = {"x": L(x), "tsamp": ts_, "window_seconds": window, "window_bins_stated": w + delta, "window_bins_expected": w, "method": method}
+                        expect(f"deredden-window-rounding-{method}", ("dered-round", ts_, n, w, delta, method), "deredden/seconds-to-bins",
+                               "deredden with a window within a quarter bin of w bins is not the input minus the running filter of width w", case,
+                               lambda: guarded_method("TimeSeries.deredden", ts, f"deredden({method!r}, window={window!r})", lambda: ts.deredden(method, window=window).data), exp)
+                        if delta == 0.0 or w in (2, 101, 201):
+                            expect(f"deredden-fast-{method}", ("dered-fast", ts_, n, w, delta, method), "deredden/fast-below-202-bins",
+                                   "deredden(fast=True) with fewer than 202 bins (no decimation inside running_filter_fast) is not the input minus its running filter",
+                                   dict(case, fast=True),
+                                   lambda: guarded_method("TimeSeries.deredden", ts, f"deredden({method!r}, window={window!r}, fast=True)",
+                                                          lambda: ts.deredden(method, window=window, fast=True).data), exp)
+
+    # (v) a pedestal: float32 samples 1000 + k / 8 in groups of 8192, whose sums need 26 bits.  The compiled kernels accumulate in
+    # float64 and round once (<= 1 ulp of float32: demanded to 1e-6); the NumPy paths are held to the usual float32 tolerance
+    xp = (1000.0 + nprng.integers(-2048, 2048, 4096 * 8) / 8.0).astype(np.float32).reshape(4096, 8)
+    for (f1, f2) in [(4096, 2), (1024, 8), (3, 8)]:
+        exp = spec_ds2(xp, f1, f2, "mean")
+        case = {"x": "float32 1000 + k/8, k = default_rng stream of this run", "seed": R.seed, "shape": [4096, 8], "factors": [f1, f2], "first_samples": L(xp.ravel()[:8])}
+        expect("pedestal-downsample_2d", ("ped", "ds2", f1, f2), "pedestal", "downsample_2d of a float32 block with a pedestal is not the group mean", case,
+               lambda: stats.downsample_2d(xp, (f1, f2), "mean"), exp)
+        expect("pedestal-block-downsample", ("ped", "blk", f1, f2), "pedestal", "FilterbankBlock.downsample of a float32 block with a pedestal is not the group mean", case,
+               lambda: FilterbankBlock(xp, hdr_of(4096, 8, "filterbank")).downsample(f1, f2, "mean").data, exp)
+        expect("pedestal-kernel-accumulator", ("ped", "ds2f", f1, f2), "pedestal", "downsample_2d_flat (float64 accumulator, one rounding) is further than 1e-6 from the group mean", case,
+               lambda: stats.downsample_2d_flat(xp.ravel(), f1, f2, 4096, 8, "mean"), exp.ravel(), rtol=1e-6)
+        expect("pedestal-kernel-accumulator", ("ped", "k2p", f1, f2), "pedestal", "downsample_2d_mean_parallel (float64 accumulator, one rounding) is further than 1e-6 from the group mean", case,
+               lambda: kernels.downsample_2d_mean_parallel(xp.ravel(), f1, f2, 4096, 8), exp.ravel(), rtol=1e-6)
+    for f in (8192, 4099):
+        case = {"x": "the same block flattened", "seed": R.seed, "length": 32768, "factor": f}
+        for kname, call in (("downsample_1d", lambda: stats.downsample_1d(xp.ravel(), f, "mean")), ("downsample_1d_mean_parallel", lambda: kernels.downsample_1d_mean_parallel(xp.ravel(), f)),
+                            ("TimeSeries.downsample", lambda: TimeSeries(xp.ravel(), hdr_of(1, 32768, "time series")).downsample(f, "mean").data)):
+            expect("pedestal-kernel-accumulator", ("ped", kname, f), "pedestal", f"{kname} (float64 accumulator, one rounding) is further than 1e-6 from the group mean", case,
+                   call, spec_ds1(xp.ravel(), f, "mean"), rtol=1e-6)
+
     # ---- 6. histories on ONE object: every result must be the definition applied to the ORIGINAL data -------------------------
     def step_1d(x, x0, op):
         """run one operation on the (possibly already modified) array x; return (api, got, expected-from-x0, in dtype)"""
         kind = op[0]
         if kind == "ds1":
             _, f, method = op
-            return "downsample_1d", stats_raw.downsample_1d(x, f, method), spec_ds1(x0, f, method), x0.dtype.type
+            return "downsample_1d", stats_raw.downsample_1d(x, f, method), spec_ds1(x0, f, method), store_dtype("downsample_1d", method, x0.dtype.type)
         if kind == "k1":
             _, f = op
             return "kernels.downsample_1d_mean", kernels_raw.downsample_1d_mean(x, f), spec_ds1(x0, f, "mean"), x0.dtype.type
@@ -579,7 +859,7 @@ def run(R: vlib.Run):
             else:
                 got = blk.downsample(f1, f2, method).data
             R.case(("hist-2d", d1, d2, dname, tuple(map(tuple, done)), which, f1, f2, method), regime="history/2-D")
-            if not agrees(got, exp, None if which == "FilterbankBlock.downsample" else dt):
+            if not agrees(got, exp, store_dtype(which, method, dt)):
                 R.fail(f"history-{which}", f"{which} on data that was decimated before is not the definition on the original data",
                        {"x": L(x0), "shape": [d1, d2], "dtype": dname, "earlier_calls": done, "call": [which, f1, f2, method],
                         "got": L(got), "expected": L(exp), "array_changed": not (same_bits(x, x0) and same_bits(blk.data, xb))})
@@ -974,7 +1254,7 @@ def _scale_search(R: vlib.Run):
                     untouched(x, x0, api, case)
                     if out is not None:
                         verdict(key, f"entry i of {api} at scale is not the {method} of x[i f : (i+1) f] (length floor(n/f))", case, out, exp,
-                                dt, small_dtype(api, dname, method))
+                                store_dtype(api, method, dt), small_dtype(api, dname, method))
                 del exp
             del g
         timing[f"ds1 {n} {dname}"] = round(time.time() - t0, 2)
@@ -1050,7 +1330,7 @@ def _scale_search(R: vlib.Run):
                     untouched(x, x0, api, case)
                     if out is not None:
                         verdict(key, f"entry (i, j) of {api} at scale is not the {method} of rows i f1.. and columns j f2.. (full groups only)", case, out,
-                                exp.ravel() if flat else exp, dt, small_dtype(api, dname, method))
+                                exp.ravel() if flat else exp, store_dtype(api, method, dt), small_dtype(api, dname, method))
                 del exp
             del g4, x, x0, blk
             gc.collect()
@@ -1154,7 +1434,7 @@ def _scale_search(R: vlib.Run):
                 exp = g.sum(axis=1, dtype=np.float64) / float(f) if method == "mean" else _scale_median_rows(g)
                 api = "downsample_1d" if c == "ds1" else "TimeSeries.downsample"
                 fn = (lambda: stats.downsample_1d(x, f, method)) if c == "ds1" else (lambda: ts.downsample(f, method).data)
-                ind = dt
+                ind = store_dtype(api, method, dt)
             elif c in ("k1", "k1p"):
                 op = [c, f]
                 method = "mean"
